@@ -103,6 +103,15 @@ CLAIMED["C08"] = (
     "ranges, x/y/dual axes, 3 entry points) compared bin-by-bin with the exact rational predicate inside Coq (bins within 1e-4 of a "
     "plane skipped). Generic orientations vs an independent float reference, realness for odd shapes, entry points: oracle.",
     "regenerated anchors + Coq theorems (lia/ring) + in-Coq bin correspondence")
+CLAIMED["C16"] = (
+    "Theorems (Coq): the frequency axis (arange bounds from source + ifftshift) has exactly d entries and is the FFT index order "
+    "for every d (odd/even), in both implementations, which translate to identical definitions; the Butterworth weight is in (0,1], "
+    "equals 1 at zero frequency and is even in every index (zero phase / real output given the DFT laws); output shape = input "
+    "shape for every parity once irfftn receives the shape (refuted witness for the pre-fix d-1); identity guard <=> cutoff <= 0 or "
+    "cutoff^2 >= ndim/4. Tie: arange bounds, rfft limit, guard and irfftn call regenerated from both copies; weights (real and "
+    "complex layouts) compared with exact rational Butterworth gains and output shapes / identity for 105+ shapes x 3 cutoffs "
+    "inside Coq. Linearity, mean, gain per component, ft-vs-real, numpy/backend/pipe/Model.pre_transform agreement: numeric oracle.",
+    "regenerated anchors + Coq theorems (lia/lra) + in-Coq correspondence")
 NOT_YET = "machinery for this property is not built yet in this revision (see DESIGN.md §6 for the planned model)"
 
 def main():
